@@ -41,7 +41,8 @@ def run_job(args):
     fn = _harness_fn(modname, hname, cfg)
     eng = Engine(timeout_ms=opts.get("timeout_ms", 60000), retry_ms=opts.get("retry_ms", 240000),
                  max_decisions=opts.get("max_decisions", 20000), seed=seed,
-                 witness_cap=opts.get("witnesses", 2), index_concretize_limit=opts.get("index_concretize_limit", 0))
+                 witness_cap=opts.get("witnesses", 2), index_concretize_limit=opts.get("index_concretize_limit", 0),
+                 path_seconds=opts.get("path_seconds", 300))
     eng.cfg = cfg
 
     def witness(ins, ufs):
@@ -178,6 +179,9 @@ def main(argv=None):
             if k is not None:
                 known_hit.setdefault(k["id"], k)
                 continue
+            if sum(1 for x in violations_new if x["label"] == v["label"]) >= 3:
+                violations_new.append({"label": v["label"], "job": r["job"], "replay": None, "inputs": v["inputs"]})
+                continue
             path = replay_file(prop, modname, hname, cfg, v, len(violations_new))
             try:  # also under the interpreter the baseline uses (3.12); informational
                 p = subprocess.run(["/venv/bin/python", "-m", "pvx.replay", path], cwd=VERIF, capture_output=True, text=True, timeout=120)
@@ -199,8 +203,12 @@ def main(argv=None):
     for k in known_hit.values():
         print(f"KNOWN-FINDING: property={prop} {k['id']} {k['what']}")
     for v in violations_new:
-        print(f"VIOLATION property={prop} replay={v['replay']}")
-        print(f"  label={v['label']} job={v['job']} py3.12={v.get('py312')}")
+        if v["replay"]:
+            print(f"VIOLATION property={prop} replay={v['replay']}")
+            print(f"  label={v['label']} job={v['job']} py3.12={v.get('py312')}")
+    more = sum(1 for v in violations_new if not v["replay"])
+    if more:
+        print(f"  (+{more} further replayed counterexamples for the same labels, not written out)")
     for m in inconclusive[:20]:
         print("INCONCLUSIVE:", m[:600])
     n_assert = sum(reached.values())
@@ -208,6 +216,9 @@ def main(argv=None):
           f"(unsat {tot['unsat']}, sat {tot['sat']}, unknown {tot['unknown_q']}) solver_s={solver_s} wall_s={wall} "
           f"assertions reached={n_assert} proved={sum(proved.values())} witnesses replayed ok={witnesses_ok} bad={witnesses_bad} "
           f"violations={len(violations_new)} known={len(known_hit)} inconclusive={len(inconclusive)}")
+    for k in sorted(reached):
+        if reached[k] != proved.get(k, 0):
+            print(f"  label {k}: reached {reached[k]} proved {proved.get(k, 0)}")
     if not a.only:
         write_evidence(mod, prop, tier, seed, results, tot, solver_s, wall, reached, proved, witnesses_ok, replays,
                        violations_new, known_hit, inconclusive, pre)
